@@ -5,10 +5,13 @@ use crate::outcome::{Ctx, Outcome, PropInfo};
 pub mod c01;
 pub mod c02;
 pub mod c03;
+pub mod c04;
+pub mod c05;
 pub mod c06;
 pub mod c07;
 pub mod c08;
 pub mod c09;
+pub mod c10;
 pub mod c11;
 pub mod c12;
 pub mod c13;
@@ -16,12 +19,14 @@ pub mod c14;
 pub mod c15;
 pub mod c16;
 pub mod c17;
+pub mod c18;
 pub mod c19;
 pub mod c20;
 pub mod netcode_util;
+pub mod netproto_util;
 
 pub fn all() -> Vec<&'static PropInfo> {
-    vec![&c01::INFO, &c02::INFO, &c03::INFO, &c06::INFO, &c07::INFO, &c08::INFO, &c09::INFO, &c11::INFO, &c12::INFO, &c13::INFO, &c14::INFO, &c15::INFO, &c16::INFO, &c17::INFO, &c19::INFO, &c20::INFO]
+    vec![&c01::INFO, &c02::INFO, &c03::INFO, &c04::INFO, &c05::INFO, &c06::INFO, &c07::INFO, &c08::INFO, &c09::INFO, &c10::INFO, &c11::INFO, &c12::INFO, &c13::INFO, &c14::INFO, &c15::INFO, &c16::INFO, &c17::INFO, &c18::INFO, &c19::INFO, &c20::INFO]
 }
 
 pub fn find(id: &str) -> Option<&'static PropInfo> {
